@@ -31,6 +31,7 @@ type Job struct {
 	ConcreteClock bool
 	ManualTimers bool
 	SolverTimeoutMs int
+	CrossEvery int
 	SolverKind string
 	SolverFallback bool
 	BudgetViolation bool // an exhausted instruction budget is a violation (loop without progress), not inconclusive
@@ -65,6 +66,9 @@ type JobResult struct {
 	SolverS  float64
 	WallS    float64
 	Terms    int
+	CrossChecked int
+	CrossDisagree int
+	FallbackQueries int
 	Samples  []map[string]interface{}
 	Witness  []sym.Witness
 }
@@ -156,6 +160,7 @@ func RunJob(l *Loaded, job *Job, tweak func(*sym.Config)) (res *JobResult) {
 	res.Queries, res.Sat, res.Unsat, res.Unknown, res.CacheHit = sol.Queries, sol.Sat, sol.Unsat, sol.Unknown, sol.CacheHits
 	res.SolverS = sol.Time.Seconds()
 	res.Terms = e.TB().NumTerms()
+	res.CrossChecked, res.CrossDisagree, res.FallbackQueries = sol.CrossChecked, sol.CrossDisagree, sol.FallbackQueries
 	res.Witness = e.Witnesses
 	return
 }
